@@ -79,7 +79,7 @@ func vpC01Oracle(l *vpLedger, ver *common.VersionedTransaction) string {
 
 func TestVP_C01_conservation(t *testing.T) {
 	c := kit.New(t, "C01", "rapid: model-built ledgers (deposits, transfers, submits, claims, mints over 3 assets, mixed pending/finalized) probed with valid spends and one-rule-broken twins (amount +-1 unit, zero output, foreign-asset input, duplicated input, wrong asset id, special-input mixes, free-form amounts); oracle recomputes sums/asset from store read-back for every accepted tx and demands rejection of the twins; non-trivial = accepted tx with >=2 inputs or outputs, or a rejected twin; distinct by payload hash")
-	c.Require("accepted-multi", "twin-amount", "twin-zero", "twin-foreign", "twin-dup", "twin-asset", "mix-special", "freeform")
+	c.Require("accepted-multi", "twin-amount", "twin-zero", "twin-foreign", "twin-dup", "twin-asset", "mix-special", "freeform", "twin-alias-index")
 	kit.SetChecks(kit.N(120, 6000))
 	rapid.Check(t, func(t *rapid.T) {
 		l := vpLNewLedger(7, "c01", 6)
@@ -112,13 +112,14 @@ func TestVP_C01_conservation(t *testing.T) {
 			c.Case(ver.PayloadHash().String(), multi, cl...)
 			c.Sample(map[string]any{"kind": "valid spend", "inputs": len(ver.Inputs), "outputs": len(ver.Outputs), "sum_units": p.Sum.String(), "asset": l.asset(p.Asset).Name})
 
-			kind := rapid.IntRange(0, 6).Draw(t, "twin")
+			kind := rapid.IntRange(0, 7).Draw(t, "twin")
 			outs := append([]vpLOut{}, p.Outs...)
 			ins := append([]*vpLUTXO{}, p.Ins...)
 			signers := append([][]int{}, p.Signers...)
 			asset := p.Asset
 			class := ""
 			mustReject := true
+			var aliasIns []*vpLUTXO
 			switch kind {
 			case 0: // amount off by one unit
 				k := rapid.IntRange(0, len(outs)-1).Draw(t, "twin_out")
@@ -165,6 +166,18 @@ func TestVP_C01_conservation(t *testing.T) {
 				class = "twin-asset"
 			case 5: // special input mixed with ordinary inputs
 				class = "mix-special"
+			case 7: // the first input once more under an output index that does not exist (index + k*256, <= 1024), outputs raised accordingly
+				alias := *ins[0]
+				alias.Index = ins[0].Index + 256*uint(rapid.IntRange(1, 4).Draw(t, "alias_k"))
+				if alias.Index > 1024 {
+					alias.Index = 256 + ins[0].Index%256
+				}
+				aliasIns = append(append([]*vpLUTXO{}, ins...), &alias)
+				ins = append(ins, ins[0]) // signed with the keys of the real output
+				signers = append(signers, signers[0])
+				b := vpLBig(outs[0].Amount)
+				outs[0].Amount = vpLInt(b.Add(b, vpLBig(ins[0].Amount)))
+				class = "twin-alias-index"
 			case 6: // free-form output amounts (oracle decides)
 				for k := range outs {
 					outs[k].Amount = vpLInt(vpC01GenUnits(t, "ff"))
@@ -173,6 +186,9 @@ func TestVP_C01_conservation(t *testing.T) {
 				mustReject = false
 			}
 			tx2 := l.BuildSpend(asset, ins, outs, nil, nil)
+			if aliasIns != nil {
+				tx2 = l.BuildSpend(asset, aliasIns, outs, nil, nil)
+			}
 			if kind == 5 {
 				amt := vpLInt(p.Sum)
 				if rapid.Bool().Draw(t, "mix_mint") {
